@@ -35,6 +35,8 @@ class PrefixSid(Attribute):
     FLAG: int = Attribute.Flag.TRANSITIVE | Attribute.Flag.OPTIONAL
     CACHING: ClassVar[bool] = True
     TLV: ClassVar[int] = -1
+    # RFC 8669 section 6: a malformed BGP Prefix-SID attribute is handled with attribute discard
+    DISCARD: ClassVar[bool] = True
 
     # Registered subclasses we know how to decode
     registered_srids: ClassVar[dict[int, Type[Any]]] = dict()
